@@ -84,7 +84,10 @@ class Driver:
                 d, r = c.nodes[act[1]], c.nodes[act[3]]
                 Line(c, d if act[2] < 0 else (d, act[2]), r if act[4] < 0 else (r, act[4]))
             elif k == 'RemoveLine':
-                c.lines[act[1]].remove()
+                self.gone = c.lines[act[1]]
+                self.gone.remove()
+            elif k == 'RemoveAgain':
+                self.gone.remove()          # a handle kept from an earlier RemoveLine
             elif k == 'RemoveNode':
                 c.nodes[act[1]].remove()
             elif k == 'AppendIo':
@@ -175,8 +178,12 @@ def random_history(rnd, length, names):
                 if rp < len(rn.ins) and rn.ins[rp] is not None:
                     continue
             act = ['NewLine', dn.index, dp, rn.index, rp]
-        elif op < 0.74 and c.lines:
+        elif op < 0.72 and c.lines:
             act = ['RemoveLine', rnd.choice(c.lines).index]
+        elif op < 0.74:
+            if getattr(d, 'gone', None) is None:
+                continue
+            act = ['RemoveAgain']
         elif op < 0.82:
             ios = set(id(n) for n in c.io_nodes)
             cand = [n for n in c.nodes if all(l is None for l in n.ins) and all(l is None for l in n.outs) and id(n) not in ios]
@@ -306,7 +313,7 @@ def main(tier=None, replay=None):
     want = sum(len(t) for t in conf) + len(conf)
     if not r2.drifts and not r2.crashed() and r2.distinct != want:
         ck.drift('CircuitEdit.tla consumed %d of %d recorded states' % (r2.distinct, want))
-    ck.need_cover(['edit:' + e for e in ('NewNode', 'NewLine', 'RemoveLine', 'RemoveNode', 'AppendIo', 'Elim', 'Copy', 'Pickle', 'Subst')])
+    ck.need_cover(['edit:' + e for e in ('NewNode', 'NewLine', 'RemoveLine', 'RemoveAgain', 'RemoveNode', 'AppendIo', 'Elim', 'Copy', 'Pickle', 'Subst')])
     ck.assumptions += ['well-formed use: explicit pins only on free positions (on a fork output only the next position; a fork has a single driver on pin 0), nodes removed after '
                        'their lines, ports not removed, eliminate only when 1:1 forks have a driver and forks form no loop, substitute only '
                        'where the port counts match and generated names are free', 'TLC, JSON reader, harness projection (public attributes)']
